@@ -677,7 +677,12 @@ func c09Program(res *Result, src string, tests [][]int, wr int) {
 				return
 			}
 			if !sameBigs(got, want) {
-				res.viol("config-changes-result:"+cfgs[ci].name, "main(%v, %v) = %v under %s but %v under %s\n%s", in[0], in[1], want, cfgs[0].name, got, cfgs[ci].name, src)
+				key := "config-changes-result:" + cfgs[ci].name
+				if cfgs[ci].target == utils.TargetGMW && strings.Contains(src, "uint7") && (strings.Contains(src, " / ") || strings.Contains(src, " % ")) {
+					// the input class of the listed finding of the GMW divider (7-bit dividend 127): C07 has the details
+					key = "config-changes-result:GMW-divider:uint7"
+				}
+				res.viol(key, "main(%v, %v) = %v under %s but %v under %s\n%s", in[0], in[1], want, cfgs[0].name, got, cfgs[ci].name, src)
 				return
 			}
 		}
